@@ -160,6 +160,7 @@ def run(ctx):
       'onto ready_ in a Plan method) is reachable only after a test excluding kWantToFinish and is '
       'accompanied on every path by the write want = kWantToFinish')
     nadm = 0
+    adm_kinds = set()
     for f in prog.functions.values():
         if f.cls != 'Plan':
             continue
@@ -191,6 +192,7 @@ def run(ctx):
             return True
         for e in adm:
             nadm += 1
+            adm_kinds.add(basename(e.get('name') or '').split('::')[-1])
             # (a) state examined
             r = f.find_path(None, lambda x: x is e, from_succ=f.entry, edge_ok=state_test_edge,
                             sensitive=False)
@@ -209,8 +211,10 @@ def run(ctx):
                       f.where(e), 'admission `%s` in %s is accompanied by want = kWantToFinish' % (
                           e.get('src'), f.name),
                       witness=None if ok else {'before': before[0], 'after': after[0]})
-    if nadm < 4:
-        ctx.floor_failures.append('C06.G1 found %d admission sites (>= 4 confirmed)' % nadm)
+    # floor by kind, not by count: merging two sites that admit the same way is a refactoring, losing a whole kind of
+    # admission (delayed in a pool / counted by a pool / pushed on the ready queue) means the anchors drifted
+    if not {'DelayEdge', 'EdgeScheduled', 'push'} <= adm_kinds:
+        ctx.floor_failures.append('C06.G1 found admission kinds %s in %d sites (DelayEdge, EdgeScheduled and a ready_ push confirmed)' % (sorted(adm_kinds), nadm))
     # the re-entry tests read exactly that state
     sw = prog.fn('Plan::ScheduleWork')
     rets = [e for e in sw.events('ret')]
